@@ -15,6 +15,7 @@
   checked by the correspondence oracle meanwhile.
 -/
 import Lc3V.Props.C08
+import Lc3V.Gen.OsImage
 namespace Lc3V.C33
 open Lc3V Sim SimM
 
@@ -73,8 +74,79 @@ theorem unanswered_read_returns_mirror (s : Sim) (a : W) (c : Ctx) (hp : c.privi
 example : (Device.ioRead (.keyboard [0x41, 0x42] false true) KBDR true).1 = none := by decide
 example : (Device.ioRead (.keyboard [0x41, 0x42] false false) KBDR true).1 = some 0x41 := by decide
 
+/-! ### the OS listing: data registers are touched only behind a poll of the ready bit -/
+section Listing
+open Lc3V.Gen
+
+/-- word of the OS image at address `a` (block 0 starts at x0000) -/
+def osAt (a : Nat) : Option W := (osWords0[a]?).join
+
+/-- the cell a PC-relative 9-bit operand of the instruction `w` at address `a` points at -/
+def ptrCell (a : Nat) (w : W) : Option W :=
+  let off := w.toNat % 512
+  if off ≥ 256 then (if a + 1 + off ≥ 512 then osAt (a + 1 + off - 512) else none) else osAt (a + 1 + off)
+
+/-- `w` at `a` is LDI (`op = 0xA`) or STI (`op = 0xB`) through a pointer cell that holds the device register `reg` -/
+def accessVia (op reg a : Nat) : Bool :=
+  match osAt a with
+  | some w => w.toNat / 4096 == op && (ptrCell a w).map (·.toNat) == some reg
+  | none => false
+
+/-- addresses of the OS instructions that access device register `reg` with opcode `op` -/
+def accesses (op reg : Nat) : List Nat := (List.range osWords0.length).filter (accessVia op reg)
+
+/-- ADD, AND, NOT, LDR: instructions that neither branch nor name a device register -/
+def plainAt (a : Nat) : Bool :=
+  match osAt a with
+  | some w => let op := w.toNat / 4096; op == 1 || op == 5 || op == 9 || op == 6
+  | none => false
+
+/-- the access at `a` is reached only through the exit of a two-instruction poll loop
+    `LDI Rx, <status>` ; `BRzp <the LDI>`, followed by at most three plain instructions (the OS restores R0 from its stack
+    between the poll and the store) -/
+def polled (status a : Nat) : Bool :=
+  (List.range 4).any fun k =>
+    decide (2 + k ≤ a) && accessVia 0xA status (a - 2 - k) && (osAt (a - 1 - k) == some 0x07FE) &&
+      (List.range k).all fun j => plainAt (a - k + j)
+
+/-- every address some OS word can transfer control to other than by falling through: BR / JSR targets and the contents of
+    the trap and interrupt vector tables (x0000-x01FF) (RET / RTI / JSRR / JMP go where a caller or the stack says) -/
+def jumpTargets : List Nat :=
+  (List.range osWords0.length).filterMap fun b =>
+    match osAt b with
+    | none => none
+    | some w =>
+      let v := w.toNat
+      if b < 512 then some v
+      else if v / 4096 == 0 && (v / 512) % 8 != 0 then some ((b + 1 + (if v % 512 ≥ 256 then v % 512 + 65536 - 512 else v % 512)) % 65536)
+      else if v / 4096 == 4 && (v / 2048) % 2 == 1 then some ((b + 1 + (if v % 2048 ≥ 1024 then v % 2048 + 65536 - 2048 else v % 2048)) % 65536)
+      else none
+
+/-- the length of the plain stretch between the poll loop and the access at `a` -/
+def pollGap (status a : Nat) : Option Nat :=
+  (List.range 4).find? fun k =>
+    decide (2 + k ≤ a) && accessVia 0xA status (a - 2 - k) && (osAt (a - 1 - k) == some 0x07FE) &&
+      (List.range k).all fun j => plainAt (a - k + j)
+
+/-- nothing jumps into the stretch `BRzp ; plain* ; access`: it is entered only by falling out of the poll loop -/
+def sealed (status a : Nat) : Bool :=
+  match pollGap status a with
+  | some k => jumpTargets.all fun t => !(decide (a - 1 - k ≤ t) && decide (t ≤ a))
+  | none => false
+
+set_option maxRecDepth 100000 in
+/-- every OS instruction that reads KBDR sits directly behind a KBSR poll loop, every one that stores to DDR directly behind
+    a DSR poll loop: no OS routine touches a device's data register without having just seen its ready bit. -/
+theorem os_data_accesses_polled :
+    (∀ a ∈ accesses 0xA 0xFE02, polled 0xFE00 a = true) ∧ (∀ a ∈ accesses 0xB 0xFE06, polled 0xFE04 a = true) ∧
+    (∀ a ∈ accesses 0xA 0xFE02, sealed 0xFE00 a = true) ∧ (∀ a ∈ accesses 0xB 0xFE06, sealed 0xFE04 a = true) ∧
+    accesses 0xA 0xFE02 ≠ [] ∧ accesses 0xB 0xFE06 ≠ [] := by
+  decide +kernel
+
+end Listing
+
 def obligations : List Lean.Name :=
   [``kbdr_free_exactly_once, ``kbdr_peek, ``ddr_free_exactly_once, ``kbsr_ready_iff, ``poll_denied_harmless,
-   ``kbdr_denied_stale, ``ddr_denied_lost, ``unanswered_read_returns_mirror]
+   ``kbdr_denied_stale, ``ddr_denied_lost, ``unanswered_read_returns_mirror, ``os_data_accesses_polled]
 
 end Lc3V.C33
